@@ -12,6 +12,7 @@ import KinModel.Gen.BodyDecoders
 import KinModel.Gen.BodyEncoders
 import KinModel.Lemmas.C13Flow
 import KinModel.C13Iter
+import KinModel.C13Trace
 namespace KinModel.C13
 open Stream
 
@@ -1222,5 +1223,98 @@ example :
   exact Exec.branchStop _ _ _ [.ret 5] _ (by simp [branches]) (Exec.ret _ _ _) rfl
 
 end FlowPart
+
+/-! ## Part 6 — the hand-written stream model follows the regenerated skeleton (event traces, KinModel/C13Trace.lean)
+
+Part 5 checks the skeleton against the property and counts its statements; this part ties the *model* of Part 1 to
+it: what `Stream.bodyPhase` does to the request is what one complete path of the regenerated skeleton of
+ValidateRequestBody does when its events are executed concretely, and conversely. -/
+section TracePart
+open Trace Gen
+
+/-- the complete paths of ValidateRequestBody in the source, as stream events (regenerated table; a loop, `continue`,
+    `break`, `if data != nil` or anything unrecognised would appear as `unsupported` and break this obligation) -/
+theorem vrb_trace_set :
+    tracesL (bodyOf "ValidateRequestBody" c13BodyFlow) =
+      [([.guard true, .read, .restore], true), ([.guard true, .read, .restore, .install], true),
+       ([.guard false], true), ([.guard false, .install], true)] := by decide +kernel
+
+/-- **The model's body phase is a path of the code.**  For every request, `required` flag and schema outcome: the
+request `Stream.bodyPhase` returns is the result of executing — with the stream operations `readAll`, `drain`,
+`restore` and the install of the re-encoded bytes — one complete path (ending in `return`) of the regenerated
+skeleton of ValidateRequestBody whose guard outcome is that of the request.  Full strength. -/
+theorem bodyPhase_is_a_skeleton_path (required : Bool) (outcome : Bytes → BodyOutcome) (r : Req) :
+    ∃ t, (t, true) ∈ tracesL (bodyOf "ValidateRequestBody" c13BodyFlow) ∧ consistent t r = true ∧
+      (bodyPhase required outcome r).1 = runTrace (newData outcome r) t r := by
+  rw [vrb_trace_set]
+  cases hb : r.body with
+  | none => exact ⟨[.guard false], by simp, by simp [consistent, hb], by simp [bodyPhase, hb, runTrace, stepEv]⟩
+  | some data =>
+    cases data with
+    | nil =>
+      exact ⟨[.guard true, .read, .restore], by simp, by simp [consistent, hb],
+        by simp [bodyPhase, hb, runTrace, stepEv, readAll]⟩
+    | cons x xs =>
+      cases ho : outcome (x :: xs) with
+      | rewrite nd =>
+        exact ⟨[.guard true, .read, .restore, .install], by simp, by simp [consistent, hb],
+          by simp [bodyPhase, hb, runTrace, stepEv, readAll, newData, ho]⟩
+      | reject =>
+        exact ⟨[.guard true, .read, .restore], by simp, by simp [consistent, hb],
+          by simp [bodyPhase, hb, runTrace, stepEv, readAll, ho]⟩
+      | accept =>
+        exact ⟨[.guard true, .read, .restore], by simp, by simp [consistent, hb],
+          by simp [bodyPhase, hb, runTrace, stepEv, readAll, ho]⟩
+      | rewriteFails =>
+        exact ⟨[.guard true, .read, .restore], by simp, by simp [consistent, hb],
+          by simp [bodyPhase, hb, runTrace, stepEv, readAll, ho]⟩
+
+/- Full statement (not provable: the skeleton does not keep the condition `len(data) == 0`):
+   every complete path of the skeleton whose guard outcome is that of the request is what `bodyPhase` does for some
+   `required` and schema outcome. -/
+/-- **Every path of the code is the model's body phase** — except the one path the skeleton has only because it does
+not keep `len(data) == 0` (`InstallWithoutRead`); a path with the default rewrite needs a non-empty body (zero bytes
+return before the schema is consulted). -/
+theorem skeleton_paths_are_bodyPhase_partial (t : List Ev) (r : Req) (nd : Bytes)
+    (ht : (t, true) ∈ tracesL (bodyOf "ValidateRequestBody" c13BodyFlow)) (hc : consistent t r = true)
+    (hx : InstallWithoutRead t = false) (hne : t.contains .install = true → readAll r ≠ []) :
+    ∃ required outcome, (bodyPhase required outcome r).1 = runTrace nd t r := by
+  rw [vrb_trace_set] at ht
+  simp only [List.mem_cons, Prod.mk.injEq, and_true, List.not_mem_nil, or_false] at ht
+  rcases ht with rfl | rfl | rfl | rfl
+  · refine ⟨true, fun _ => .accept, ?_⟩
+    cases hb : r.body with
+    | none => simp [consistent, hb] at hc
+    | some data => cases data <;> simp [bodyPhase, hb, runTrace, stepEv, readAll]
+  · refine ⟨true, fun _ => .rewrite nd, ?_⟩
+    cases hb : r.body with
+    | none => simp [consistent, hb] at hc
+    | some data =>
+      cases data with
+      | nil => simp [readAll, hb] at hne
+      | cons x xs => simp [bodyPhase, hb, runTrace, stepEv]
+  · refine ⟨true, fun _ => .accept, ?_⟩
+    cases hb : r.body with
+    | none => simp [bodyPhase, hb, runTrace, stepEv]
+    | some data => simp [consistent, hb] at hc
+  · simp [InstallWithoutRead] at hx
+
+/-- witness: inside the exclusion the path is in the skeleton, agrees with the request, and is not the model's -/
+theorem install_without_read_witness :
+    ([Ev.guard false, .install], true) ∈ tracesL (bodyOf "ValidateRequestBody" c13BodyFlow) ∧
+    consistent [.guard false, .install] ⟨none, .none, 0⟩ = true ∧ InstallWithoutRead [.guard false, .install] = true ∧
+    ∀ required outcome, (bodyPhase required outcome ⟨none, .none, 0⟩).1 ≠ runTrace [1] [.guard false, .install] ⟨none, .none, 0⟩ := by
+  refine ⟨by rw [vrb_trace_set]; simp, by decide, by decide, ?_⟩
+  intro required outcome
+  simp [bodyPhase, runTrace, stepEv]
+
+/-- non-vacuity: a request with a body, the path with the default rewrite -/
+example : ([Ev.guard true, .read, .restore, .install], true) ∈ tracesL (bodyOf "ValidateRequestBody" c13BodyFlow) ∧
+    consistent [.guard true, .read, .restore, .install] ⟨some [1, 2], .none, 2⟩ = true ∧
+    InstallWithoutRead [.guard true, .read, .restore, .install] = false ∧
+    runTrace [7] [.guard true, .read, .restore, .install] ⟨some [1, 2], .none, 2⟩ = ⟨some [7], .ok [7], 1⟩ := by
+  refine ⟨by rw [vrb_trace_set]; simp, by decide, by decide, by decide⟩
+
+end TracePart
 
 end KinModel.C13
